@@ -436,7 +436,7 @@ pub fn oracle_main(args: &[String]) {
         let mut seen: HashMap<String, ()> = HashMap::new();
         let mut taints: Vec<String> = vec![];
         loop {
-            match rx.recv_timeout(std::time::Duration::from_millis(4000)) {
+            match rx.recv_timeout(std::time::Duration::from_millis(30000)) {
                 Ok(Some(l)) => {
                     if let Some(rest) = l.strip_prefix('@') {
                         current = rest.to_string();
